@@ -288,7 +288,19 @@ def check_form(spec, res, nenv, seed):
             if prev is not None and val != prev:
                 sig = label.split(':')[1] if label.startswith('transform') else label
                 if sig == 'cse':
-                    sig = 'cse-merged-distinct:' + classify_cse(snaps[idx - 1][1], forest)
+                    cls = classify_cse(snaps[idx - 1][1], forest)
+                    if cls == 'other':
+                        # do the values agree again when all builtin functions are identified?
+                        try:
+                            ev.BLIND[0] = True
+                            e2 = ev.Env(hdr, env.seed)
+                            if ev.denote(snaps[idx - 1][1], e2)[0] == ev.denote(forest, e2)[0]:
+                                cls = 'funcname'
+                        except (ev.Unsupported, ev.Undefined, ev.Malformed):
+                            pass
+                        finally:
+                            ev.BLIND[0] = False
+                    sig = 'cse-merged-distinct:' + cls
                 k = next(i for i, (a, b) in enumerate(zip(prev, val)) if a != b)
                 j = next(i for i, (a, b) in enumerate(zip(prev[k], val[k])) if a != b) if len(prev[k]) == len(val[k]) else 0
                 problems.append(('impl:value-changed:' + sig,
